@@ -582,7 +582,8 @@ func fullPathStress(res *Result, r *Rng, rounds int) {
 		wg.Wait()
 		mjml.Render(docs[0], mjml.WithCache())
 		limit := time.Now().Add(2 * time.Second)
-		for spawned.Load()-exited.Load() > 1 && time.Now().Before(limit) {
+		// (a cleaner counts from the moment its goroutine runs, and a stopped one until it has returned: both take a moment)
+		for spawned.Load()-exited.Load() != 1 && time.Now().Before(limit) {
 			time.Sleep(time.Millisecond)
 		}
 		res.Case(fmt.Sprintf("stop-storm-%d", storm), true)
@@ -618,7 +619,48 @@ func fullPathStress(res *Result, r *Rng, rounds int) {
 
 var ctrRand atomic.Uint64
 
+// runC15 runs the scenarios under a watchdog: "nobody stays blocked" is part of the property, and a compilation that never
+// returns must end the run with a violation instead of holding it until the orchestrator's timeout.  No scenario is silent
+// for more than a few seconds on the unchanged tree; 75 s without a new case means goroutines are blocked.
 func runC15(res *Result, tier string, seed int64, replay string) {
+	done := make(chan struct{})
+	go func() {
+		defer close(done)
+		runC15Scenarios(res, tier, seed, replay)
+	}()
+	last, lastAt := -1, time.Now()
+	for {
+		select {
+		case <-done:
+			return
+		case <-time.After(time.Second):
+		}
+		res.mu.Lock()
+		ev := res.Evaluations
+		res.mu.Unlock()
+		if ev != last {
+			last, lastAt = ev, time.Now()
+			continue
+		}
+		if time.Since(lastAt) > 75*time.Second {
+			buf := make([]byte, 1<<16)
+			buf = buf[:runtime.Stack(buf, true)]
+			where := "?"
+			for _, fn := range []string{"fullPathStress", "ccReplays", "replaySchedule", "freeRun", "freeWalk", "runC15Park", "compareCache"} {
+				if strings.Contains(string(buf), fn) {
+					where = fn
+					break
+				}
+			}
+			res.Violate(Violation{Sig: "blocked|" + where, Kind: "schedule", What: fmt.Sprintf("no scenario made progress for 75 s (in %s, after %d cases): compilations or stops that never return; goroutines waiting on sfMutex / a WaitGroup / the cleanup mutex: %d / %d / %d",
+				where, ev, strings.Count(string(buf), "singleflightDo"), strings.Count(string(buf), "WaitGroup"), strings.Count(string(buf), "StopASTCacheCleanup")),
+				Input: map[string]interface{}{"seed": seed, "tier": tier, "cases-before-the-block": ev}})
+			return
+		}
+	}
+}
+
+func runC15Scenarios(res *Result, tier string, seed int64, replay string) {
 	res.Rule = "(1b) model-guided replay of whole cached compilations: 2–5 goroutines compile three documents (one unparsable) through Render(WithCache), parked at the yield points of parseAST and singleflightDo; the Lean concurrent cache Model (driver `cc`) chooses each next step — a thread step, an eviction, the passing of time — and after every step the goroutine must stand where the Model's thread stands; every compilation must return the uncached result and the cache must hold exactly the Model's entries; (1) model-guided replay: 2–6 goroutines on 1–2 keys call the real singleflightDo, parked at verif yield points; at every step the Lean Model (driver `sf`) gives the enabled set, one enabled goroutine is granted one atomic step and must arrive at the label the Model predicts (start/locked/waiting/lead/parsing/assigned/signalled/deleting/ret) and return the leader's node; (2) unguided search: free-running goroutines with seeded delays at the yield points, oracle = no overlapping parse per key, complete result of own key, all return; (3) full-path stress of Render(WithCache) with expiry shifts and stop/restart, solo-result comparison, cleanup-goroutine accounting; (2b) a parse function that panics, with 0–3 waiters: nobody stays blocked, the call does not stay registered, the next caller parses again; (3b) the cleanup goroutine held at a yield point (just started / a sweep just finished) while the main goroutine stops it, uses the cache, stops again: fixed and seeded scripts, each in a fresh process with a 1 ms interval; after the release exactly the goroutines the last call asks for are alive and registered; (4) life of the cleanup goroutine: histories with stops, restarts and configuration calls made while a cleaner runs, and sweeps that really run (1 ms interval, a tick awaited after every step: over an empty cache, over expired entries only, around stops), each in a fresh process and on the Lean cache Model (goroutines started / exited / registered, at most one alive); run under the race detector. Non-trivial = schedule with ≥2 goroutines on one key; distinct by label trace"
 	drv, err := startDriver()
 	if err != nil {
